@@ -7,7 +7,7 @@ def main(tier, replay=None):
         return vk_replay("C13", replay)
     res = Result("C13", tier, "exploration")
     fams = [dict(scn="local", name="c13-" + f, opts=["mode=c13", "family=" + f] + (["thorough=1"] if tier == "thorough" else []), bounds="0,0,0,0", total=0, deadline=1500, qcap=2000000) for f in ("select", "perm", "instr", "owner", "hdr")]
-    run_families(res, "C13", tier, fams)
+    plain_src = run_families(res, "C13", tier, fams)
     res.rule = ("real qmail-local (-n and real mode, real fork/exec of a /bin/sh stand-in, real maildir child, real qmail-queue for forwards) in a "
                 "virtual home.  select: all 256 subsets of 8 .qmail files x 16 extensions (case incl. the boundary letter Z, dots, slashes, trailing dash, 'default'); perm: "
                 "6 file modes x 5 home modes x 5 bodies x {-n, real} x {.qmail, .qmail-list}; instr: every instruction list of length 1..3 (thorough: 4) over "
@@ -17,4 +17,5 @@ def main(tier, replay=None):
                 "file, ordered actions, forward last and only on success, exit code class, header lines of every delivered copy")
     res.assumptions = ["virtual kernel (appendix A)", "conf-patrn is read from the tree (002)", "the clock advances one second whenever a process exits (maildir names of two deliveries by a re-used pid would otherwise collide, which qmail-local answers with a deferral)"]
     res.require_nonzero("evaluations", "c13_cases", "c13_exit0", "c13_exit100", "c13_exit111")
+    lib_conformance(res, rundir("C13lib"), plain_src, ['bytes', 'io', 'ctl'], tier, asan=False)
     return res.finish()
